@@ -555,12 +555,19 @@ func (s *system) Checks() int64   { return s.obs.Checks }
 func (s *system) Terminal() bool  { return false }
 func (s *system) Close() {
 	for i, n := range s.nodes {
+		// ClusterNode.Close leaves the cached RPC connections open (a real node's process exits):
+		// without this every history leaks a descriptor pair per connection, and a long-lived
+		// worker of the thorough tier ran into "too many open files"
+		n.VerifDropRPCClients()
 		n.VerifShardManager().VerifCloseAllShards()
 		if s.alive[i] {
 			n.Close()
 		}
 	}
 	os.RemoveAll(s.root)
+	if fds, err := os.ReadDir("/proc/self/fd"); err == nil && len(fds) > 600 {
+		pool.RequestRecycle() // belt and braces: never let leaked descriptors accumulate towards the limit
+	}
 }
 
 func master(cfg *harness.Config, rep *harness.Report) {
